@@ -28,7 +28,8 @@ from ..core import Inconclusive
 from . import c05 as close
 
 LEVEL = "model_checking"
-SHIM = {"lnwallet/zz_verif_c04_export.go": os.path.join(core.VERIF, "harness", "lnwallet", "c04_export.go")}
+SHIM = {"lnwallet/zz_verif_c04_export.go": os.path.join(core.VERIF, "harness", "lnwallet", "c04_export.go"),
+        "channeldb/zz_verif_c04_legacy.go": os.path.join(core.VERIF, "harness", "channeldb", "c04_legacy_export.go")}
 
 
 def keyfn(badrec, hdr, inv):
